@@ -441,6 +441,8 @@ class Run:
         self.lenient_stores = False
         self.lost_stores = 0
         self.dim_events = []      # dimensionally inconsistent operations met on this path
+        self.label_popped = False
+        self.pushed = []
 
     def choose(self, n):
         if self.pos < len(self.script):
@@ -943,6 +945,10 @@ class Run:
         if name == 'push' and len(a) == 2:
             old = w.f.get('elem', TOP)
             w.f['elem'] = join(old, a[1])
+            if self.label_popped and isinstance(old, Aff) and old.lin:
+                # explicit-coefficient mode: the element leaving the window is an atom of its own; what was pushed is remembered
+                self.pushed.append(a[1])
+                return Aff(True, old.w, old.c, False, {'popped': ONE})
             return old
         if name in ('newest', 'oldest', 'index'):
             return w.f.get('elem', TOP)
@@ -963,7 +969,7 @@ class Run:
         return TOP
 
 
-def explore(facts, fn_body, mk_args, limit=64):
+def explore(facts, fn_body, mk_args, limit=64, label_popped=False):
     """run fn_body on every decision script; yields (run, args, result) per path"""
     pending = [[]]
     out = []
@@ -972,6 +978,7 @@ def explore(facts, fn_body, mk_args, limit=64):
         if len(out) >= limit:
             raise Abstain('too many paths')
         run = Run(facts, script)
+        run.label_popped = label_popped
         args = mk_args()
         dead = False
         try:
